@@ -207,6 +207,23 @@ func (c *Ctx) unprotectedRegion() *Reach {
 			roots = append(roots, f)
 		}
 	}
+	// every goroutine started anywhere in the library begins with an empty stack: a deferred recovery hook in the
+	// frame that executed the go statement (a handler, say) does not cover it
+	for _, f := range c.ModFuncs {
+		if f.Package() != c.Client && f.Package() != c.State {
+			continue
+		}
+		for _, cs := range CallSites(f) {
+			if _, isGo := cs.(*ssa.Go); !isGo {
+				continue
+			}
+			for _, e := range c.Callees(cs) {
+				if e.Callee != nil && c.InModuleFn(e.Callee) {
+					roots = append(roots, e.Callee)
+				}
+			}
+		}
+	}
 	return c.Closure(roots, func(from *ssa.Function, e Edge) bool {
 		if e.Callee.Package() != c.Client && e.Callee.Package() != c.State && e.Callee.Package() != c.Logging {
 			return false
@@ -229,7 +246,7 @@ func runC02(c *Ctx) {
 	r, a := c.R, c.A
 	r.Rule("R1", "every potentially panicking instruction (index, slice, string index, unchecked type assertion, division, nil-map update, explicit panic, close) in the unprotected region is proved safe for all inputs")
 	r.Rule("R2", "every invocation of handler code is under a deferred call of Config.Recover, one handler per frame; the default hook calls recover() directly and invokes no method of the recovered value")
-	r.Rule("R3", "in the receive goroutine the only exits of the read loop are on the error result of the framing read; a line the parser rejects returns to the loop head")
+	r.Rule("R3", "in the receive goroutine the only exits of the read loop are on the error result of the framing read; a line the parser rejects returns to the loop head; a line it accepts is handed to the inbound queue by a blocking send before the next read")
 	r.Rule("R4", "no lock is acquired while already held in any function of the unprotected region or in the tracker (a self-deadlock stops line processing without a panic)")
 	r.Rule("R5", "the connection goroutines never start with a nil reader/writer or socket: every member spawn is dominated by a store of bufio.NewReadWriter(...) to the buffered-I/O field, and every path of the connect routine from the per-connection reset to the spawning call stores a dialled socket")
 
@@ -323,6 +340,7 @@ func runC02(c *Ctx) {
 				}
 			})
 			r.Floor("R3", "parser call in the receive goroutine", nParse, 1)
+			c.handoverRule("R3", producer)
 		}
 	}
 
@@ -408,6 +426,7 @@ func runC11(c *Ctx) {
 	r.Rule("R4", "the cut index is >= 1 at every cut (so the remaining text strictly shrinks: termination and non-empty pieces)")
 	r.Rule("R5", "each loop iteration appends msg[:i] + \"...\" and continues with msg[i:] for the same msg and i; the final append is the remaining msg; nothing else is appended")
 	r.Rule("R6", "Privmsg, Notice, Ctcp, CtcpReply pass only their text and Config.SplitLen to the splitter and send one line per piece")
+	r.Rule("R7", "a piece is not shortened on its way to the wire: the value Raw puts on the outbound queue is its own parameter cut only at the first CR/LF (shared with C09.R1), so the bound, the marker and the text of every piece survive")
 	p := c.NewProver()
 	split := c.Func(c.Client, "splitMessage")
 	r.Anchor("R1", "splitMessage", split != nil)
@@ -630,6 +649,7 @@ func runC11(c *Ctx) {
 	r.Floor("R6", "call sites of the splitter", n6, 2)
 	// the formatting variants must hand formatted TEXT to the non-formatting sender
 	c.formatHygieneRule("R6")
+	c.enqueueIdentityRule("R7")
 }
 
 // singleVarargElem: the variadic slice holds exactly one value; return it.
